@@ -318,8 +318,18 @@ def run(ctx):
     writes = [w for w in field_writes(F, PARSER, "pending_trivia") if w[3] == "assign"]
     ctx.ob("R10.4", "pending_trivia:methods", not bad and not writes,
            "methods applied to pending_trivia: %s; direct assignments: %d" % (dict(methods), len(writes)), "")
-    ctx.ob("R10.4", "pending_trivia:taken-only-when-attached", set(takes) == {"add_trivia_to_terminal"},
-           "mem::take(pending_trivia) occurs in %s" % sorted(set(takes)), "")
+    # ... or taken aside and re-queued: the same value is appended to pending_trivia again before every return (skipped
+    # nodes that were taken earlier are put in front of what is pending)
+    requeued = set()
+    for nm_ in set(takes) - {"add_trivia_to_terminal"}:
+        for f_ in [g for g in F.fns.values() if g.body and g.crate == "cairo_lang_parser" and last_seg(g.root) == nm_ and g.kind != "Closure"]:
+            back = [c for c in f_.calls() if c.name() in ("extend", "append") and len(c.args) == 2 and "f:pending_trivia" in op_prov(f_, c.args[0], 4)
+                    and "c:take" in op_prov(f_, c.args[1], 8)]
+            if back and all(any(f_.dominates(c.bb, r) for c in back) for r in f_.return_blocks()):
+                requeued.add(nm_)
+    ctx.ob("R10.4", "pending_trivia:taken-only-when-attached", "add_trivia_to_terminal" in takes and set(takes) - {"add_trivia_to_terminal"} <= requeued,
+           "mem::take(pending_trivia) occurs in %s (attached in add_trivia_to_terminal%s)" % (
+               sorted(set(takes)), "; re-queued before every return in %s" % sorted(requeued) if requeued else ""), "")
     att = F.find1(PARSER, name="add_trivia_to_terminal")
     # the taken pending trivia is extended with the terminal's own leading trivia (pending first)
     ok = False
@@ -640,7 +650,7 @@ def _trivia_order(ctx, F):
     n_sites = n_clean = 0
     for p, f in sorted(S.fns.items()):
         try:
-            res = TO.analyse(S, f)
+            res = TO.analyse(S, f, F)
         except RuntimeError as e:
             ctx.ob("R10.10", "%s|state-limit" % fn_key(p), False, "the path search did not finish: %s" % e, f.where())
             continue
